@@ -2257,26 +2257,33 @@ def parse_immediate(imm, line):
         raise AssemblerError('empty immediate value', line)
 
     head = imm[0].lower()
+    if head in ('%position', '%offset', '%hi', '%lo'):
+        # token counts the unpacking below relies on: "%position ( ref expr... )", "%offset ( ref )", "%hi ( expr... )"
+        parens = len(imm) > 1 and imm[1] == '('
+        shortest = (1 if head in ('%hi', '%lo') else 2) + (2 if parens else 0)
+        if len(imm) < shortest or (head == '%offset' and len(imm) != shortest):
+            raise AssemblerError('malformed {} expression: "{}"'.format(head, ' '.join(imm)), line)
+
     if head == '%position':
-        if imm[1] == '(':
+        if parens:
             _, _, reference, *imm, _ = imm
         else:
             _, reference, *imm = imm
         return Position(reference, Arithmetic(' '.join(imm)))
     elif head == '%offset':
-        if imm[1] == '(':
+        if parens:
             _, _, reference, _ = imm
         else:
             _, reference = imm
         return Offset(reference)
     elif head == '%hi':
-        if imm[1] == '(':
+        if parens:
             _, _, *imm, _ = imm
         else:
             _, *imm = imm
         return Hi(parse_immediate(imm, line))
     elif head == '%lo':
-        if imm[1] == '(':
+        if parens:
             _, _, *imm, _ = imm
         else:
             _, *imm = imm
